@@ -1161,6 +1161,22 @@ func timeCompareDirection(p *Prog, pkg string, fd *ast.FuncDecl, key string) map
 				got[k] = exprKey(rs.Results[0])
 			}
 		}
+		// the library's three-way comparison returned as it is: time.Time.Compare yields -1 when its
+		// receiver is earlier and +1 when it is later
+		if kind, l, rr, neg, ok := threeWayCall(f.Info, rs.Results[0]); ok && kind == "time" && len(edgesOf) == 0 {
+			if _, conditional := f.reach(f.entry(), &searchOpts{AvoidNode: func(n ast.Node) bool { return n == ast.Node(rs) }}, func(_ Point, atExit bool) bool { return atExit }); !conditional {
+				lk, rk := strip(f.KeyAt(l, pt)), strip(f.KeyAt(rr, pt))
+				if lk == "arg" && rk == "recv" {
+					neg = !neg
+				}
+				if (lk == "recv" && rk == "arg") || (lk == "arg" && rk == "recv") {
+					got["Before(recv,arg)"], got["After(recv,arg)"] = "-1", "1"
+					if neg {
+						got["Before(recv,arg)"], got["After(recv,arg)"] = "1", "-1"
+					}
+				}
+			}
+		}
 	}
 	return got
 }
